@@ -69,7 +69,7 @@ def check(R, F, P, cfg):
     for p in ps:
         some = None
         for a, t in p.literals:
-            if a[0] == "discr" and "weak_counter_marker" in fmt(a[1]):
+            if a[0] == "discr" and is_self_record_opt(a[1]):
                 some = t in (("is", 1), ("not", 0))
         kinc = len(p.calls(WCM + "increment_counter"))
         if some is None or kinc != (1 if some else 0):
@@ -90,7 +90,7 @@ def check(R, F, P, cfg):
         det = fmt(rv)
         if rv[0] == "call" and rv[1] == "std::option::Option::<T>::map_or" and rv[2][1] == ("const", 0):
             v = tables.closure_value(S, rv[2][2])
-            ok = v is not None and strip(v)[0] == "call" and strip(v)[1] == WCM + "counter" and strip(rv[2][0])[0] == "ret" and strip(rv[2][0])[1] == "weak::Weak::<T>::weak_counter_marker"
+            ok = v is not None and strip(v)[0] == "call" and strip(v)[1] == WCM + "counter" and "cbarg" in fmt(v) and is_self_record_opt(rv[2][0])
     R.inst("R9.2", "weak-weak_count", ok, "Weak::weak_count() = %s" % det[:160], where=ww.span, cfg=cfg)
     cw = anchor(F, "weak::<impl cc::Cc<T>>::weak_count")
     S = Super(P, cw, opaque=DO - {cw.npath})
